@@ -190,6 +190,15 @@ def run(ctx):
     dflt = [n for n in walk_own(enum.node) if isinstance(n, ast.Assign) and isinstance(n.targets[0], ast.Name) and n.targets[0].id == end
             and isinstance(n.value, ast.BoolOp) and isinstance(n.value.op, ast.Or)]
     okd = bool(dflt) and (found is None or dflt[0].lineno < found[0].lineno)
+    if not okd and found is not None:
+        # the same through an explaining variable: every use of the end parameter in the day count is `end or <now>`
+        from ..loader import expand_locals
+        cnt = expand_locals(enum.node, found[1])
+        uses = [x for x in ast.walk(cnt) if isinstance(x, ast.Name) and x.id == end]
+        guarded = [v.values[0] for v in ast.walk(cnt) if isinstance(v, ast.BoolOp) and isinstance(v.op, ast.Or) and len(v.values) == 2 and
+                   isinstance(v.values[0], ast.Name) and v.values[0].id == end and
+                   any(isinstance(c, ast.Call) and norm(c.func).split('.')[-1] in ('utcnow', 'now') for c in ast.walk(v.values[1]))]
+        okd = bool(uses) and all(any(u is g for g in guarded) for u in uses)
     ca.instance('end defaults to now before the enumeration', enum.qualname, okd)
     if not okd:
         res.add(Finding('C16', 'C16.a', 'R-ABSINT', enum.file, enum.qualname, enum.node.lineno, 'end default',
